@@ -708,10 +708,10 @@ func gatherVsGather(withRestart bool) zzmc.Scenario {
 				zzmc.OwnStart("*ice.Agent", "taskloop.go:")
 			}
 			for _, n := range []string{"G1", "G2"} {
-				s.Go(n, func() { res[n] = fmt.Sprint(gw.a.GatherCandidates()) })
+				s.Go(n, func() { r := fmt.Sprint(gw.a.GatherCandidates()); csRec(func() { res[n] = r }) })
 			}
 			if withRestart {
-				s.Go("R", func() { res["R"] = fmt.Sprint(gw.a.Restart("", "")) })
+				s.Go("R", func() { r := fmt.Sprint(gw.a.Restart("", "")); csRec(func() { res["R"] = r }) })
 			}
 
 			return func(dead string) (string, string) {
